@@ -276,9 +276,10 @@ func class(msg string) string {
 }
 
 type ViolCase struct {
-	Tree    string   `json:"tree"`
-	Order   []string `json:"order"`
-	CrashAt int      `json:"crash_at,omitempty"`
+	Tree      string   `json:"tree"`
+	Order     []string `json:"order"`
+	CrashAt   int      `json:"crash_at,omitempty"`
+	FirstBoot bool     `json:"first_boot,omitempty"`
 }
 
 var exe string
@@ -477,6 +478,12 @@ func crashHistory(c *fw.Ctx, ti *treeInfo, treeFile string, order []string, idx 
 			os.RemoveAll(d)
 			continue
 		}
+		if _, err := os.Stat(filepath.Join(d, "out2.json")); err != nil {
+			c.Violation("C05:crash:restart-refused-store", "crash",
+				fmt.Sprintf("tree %s history %v: after a process death before write %d (%s) the node quits during every start: %s", ti.t.Name, order, p, traceAt(ref.Trace, p), tail(out)), vc)
+			os.RemoveAll(d)
+			continue
+		}
 		var ro RunOut
 		mustRead(filepath.Join(d, "out2.json"), &ro)
 		os.RemoveAll(d)
@@ -588,6 +595,10 @@ func run(c *fw.Ctx) {
 				return
 			}
 		}
+		if !firstBootDone {
+			firstBootDone = true
+			firstBoot(c, ti, treeFile, names[0], &idx)
+		}
 		// (a) every permutation; plus every permutation with one block delivered twice (quick: dup only for trees <= 4 blocks)
 		permute(names, func(order []string) {
 			idx++
@@ -629,6 +640,92 @@ func run(c *fw.Ctx) {
 	}
 }
 
+// firstBoot: the process dies before each physical store write of the very first boot (creation of the
+// genesis block on an empty directory); the restarted node must come up and satisfy the structural
+// invariants, and delivering the first block of the tree afterwards must leave them intact.
+func firstBoot(c *fw.Ctx, ti *treeInfo, treeFile string, first string, idx *int64) {
+	runSeq++
+	dir := filepath.Join(c.Scratch, fmt.Sprintf("fbref%d", runSeq))
+	os.MkdirAll(dir, 0o755)
+	mustWrite(filepath.Join(dir, "plan.json"), Plan{ArmBoot: true})
+	code, out := runChild(dir, []string{"VERIF_CRASH_TRACE=1"}, "run", treeFile, "plan.json", "out.json")
+	if code != 0 {
+		os.RemoveAll(dir)
+		c.Infra("first-boot reference run failed: " + tail(out))
+		return
+	}
+	var ref RunOut
+	mustRead(filepath.Join(dir, "out.json"), &ref)
+	os.RemoveAll(dir)
+	c.Count("first_boot_physical_writes", int64(ref.BootWrites))
+	if ref.BootWrites < 3 {
+		c.Infra(fmt.Sprintf("first boot issued only %d store writes: vacuous", ref.BootWrites))
+		return
+	}
+	for p := 1; p <= ref.BootWrites; p++ {
+		*idx++
+		if crashOnly != 0 && p != crashOnly {
+			continue
+		}
+		if !c.Mine(*idx) {
+			continue
+		}
+		if c.Expired() {
+			c.Cap("time budget: not every crash point of the first boot explored")
+			return
+		}
+		runSeq++
+		d := filepath.Join(c.Scratch, fmt.Sprintf("fb%d", runSeq))
+		os.MkdirAll(d, 0o755)
+		mustWrite(filepath.Join(d, "plan.json"), Plan{ArmBoot: true})
+		vc := ViolCase{Tree: ti.t.Name, Order: []string{first}, CrashAt: p, FirstBoot: true}
+		code, out := runChild(d, []string{fmt.Sprintf("VERIF_CRASH_AT=%d", p)}, "run", treeFile, "plan.json", "out.json")
+		c.Eval(1)
+		if code != crash.ExitCode {
+			c.Violation("C05:crash:harness", "first-boot", fmt.Sprintf("expected the process to die at write %d of the first boot, exit=%d: %s", p, code, tail(out)), vc)
+			os.RemoveAll(d)
+			continue
+		}
+		mustWrite(filepath.Join(d, "plan2.json"), Plan{Restart: true, Order: []string{first}})
+		code, out = runChild(d, nil, "run", treeFile, "plan2.json", "out2.json")
+		if code != 0 {
+			c.Violation("C05:crash:first-boot:restart-died:"+fw.PanicSite([]byte("panic(\n"+out)), "first-boot",
+				fmt.Sprintf("node cannot restart after a process death before write %d (%s) of its first boot (exit %d): %s", p, traceAt(ref.Trace, p), code, tail(out)), vc)
+			os.RemoveAll(d)
+			continue
+		}
+		if _, err := os.Stat(filepath.Join(d, "out2.json")); err != nil {
+			// exit status 0 without having run: the node refused its own store and quit (os.Exit(0) in its boot path)
+			c.Violation("C05:crash:first-boot:restart-refused-store", "first-boot",
+				fmt.Sprintf("after a process death before write %d (%s) of its first boot the node quits during every start: %s", p, traceAt(ref.Trace, p), tail(out)), vc)
+			os.RemoveAll(d)
+			continue
+		}
+		var ro RunOut
+		mustRead(filepath.Join(d, "out2.json"), &ro)
+		os.RemoveAll(d)
+		if len(ro.Obs) == 0 {
+			c.Violation("C05:crash:harness", "first-boot", "restart run produced no observation", vc)
+			continue
+		}
+		for i := range ro.Obs {
+			for _, b := range ti.structural(&ro.Obs[i], true, false) {
+				when := "after restart"
+				if i > 0 {
+					when = "after restart and delivery of " + first
+				}
+				c.Violation("C05:crash:first-boot:"+class(b), "first-boot", fmt.Sprintf("process death before write %d (%s) of the first boot, %s: %s", p, traceAt(ref.Trace, p), when, b), vc)
+			}
+		}
+		if ro.Obs[0].Head != ti.t.Genesis {
+			c.Violation("C05:crash:first-boot:head-not-genesis", "first-boot", fmt.Sprintf("process death before write %d of the first boot: head after restart is %s, not the genesis block", p, short(ro.Obs[0].Head)), vc)
+		}
+		c.Outcome(fmt.Sprintf("first-boot crash head=%s", ti.byHashName(ro.Obs[0].Head)))
+		c.Nontrivial(fmt.Sprintf("firstboot|%d", p))
+		c.Count("first_boot_crash_points", 1)
+	}
+}
+
 func replay(c *fw.Ctx, raw json.RawMessage) {
 	exe, _ = os.Executable()
 	var vc ViolCase
@@ -643,7 +740,12 @@ func replay(c *fw.Ctx, raw json.RawMessage) {
 		ti := newTreeInfo(t)
 		treeFile := filepath.Join(c.Scratch, "tree-"+spec.Name+".json")
 		mustWrite(treeFile, t)
-		if vc.CrashAt == 0 {
+		if vc.FirstBoot {
+			var idx int64
+			c.NShards = 1
+			crashOnly = vc.CrashAt
+			firstBoot(c, ti, treeFile, vc.Order[0], &idx)
+		} else if vc.CrashAt == 0 {
 			deliver(c, ti, treeFile, vc.Order)
 		} else {
 			// replay exactly one crash point
@@ -656,6 +758,7 @@ func replay(c *fw.Ctx, raw json.RawMessage) {
 }
 
 var crashOnly int
+var firstBootDone bool
 
 func main() {
 	if len(os.Args) > 2 && os.Args[1] == "--c05" {
